@@ -24,7 +24,7 @@ ASSUMPTIONS = ['vf/oracles/posix_tz_ref.py is POSIX.1 TZ semantics; glibc is the
                'a string without rule ("EST5EDT") uses dateutil\'s documented default rule and is not compared with glibc',
                'known finding K3: M-form rules whose standard-time-of-day falls outside [0, 24 h) (classified on the rule triple)']
 MANIFEST = {
-    'technique': 'runtime differential monitor: tzstr / tzrange / tzlocal vs an independent POSIX TZ evaluator cross-checked against glibc, probing every yearly transition; malformed-string fuzzing for the ValueError contract',
+    'technique': 'runtime differential monitor: tzstr / tzrange / tzlocal vs an independent POSIX TZ evaluator cross-checked against glibc, probing every yearly transition; malformed-string fuzzing for the ValueError contract; plus the same conversions through shared tzstr / tzrange / tzlocal objects from four free-running threads with injected yields (sys.monitoring), compared with the single-threaded outcomes',
     'level_text': 'Hundreds of random rule triples per run, each evaluated by the three real zone classes on every transition '
                   'neighbourhood of three years, against a POSIX evaluator that is itself validated against the C library in '
                   'the same run.  Exploration level; K3 classified by mechanism.',
